@@ -31,7 +31,7 @@ SHARED = {
     "GenCPow": ["C14"],
     "GenRot": ["C04", "C15", "C19"],
     "GenEuler": ["C01", "C02", "C07"],
-    "GenChain": ["C01", "C07"],
+    "GenChain": ["C01", "C02", "C03", "C04", "C07"],
     "Footprint": ["C10", "C09", "C17"],
 }
 
